@@ -22,6 +22,7 @@ SCHEMA = f'''<xs:schema {XS}>
    <xs:element name="u" minOccurs="0" maxOccurs="unbounded"><xs:simpleType><xs:union memberTypes="xs:int xs:string"/></xs:simpleType></xs:element>
    <xs:any namespace="##other" processContents="lax" minOccurs="0"/>
   </xs:sequence><xs:attribute name="id" type="xs:ID"/><xs:attribute name="ref" type="xs:IDREF"/></xs:complexType>
+  <xs:unique name="US"><xs:selector xpath=". | item | gitem"/><xs:field xpath="@id"/></xs:unique>
   <xs:unique name="UU"><xs:selector xpath="u"/><xs:field xpath="."/></xs:unique><xs:key name="K"><xs:selector xpath="item|item/sub|gitem|gitem/sub"/><xs:field xpath="@k"/></xs:key>
  </xs:element>
  <xs:element name="gitem" type="B"/></xs:schema>'''
